@@ -88,9 +88,34 @@ def same_stat_probe(ctx, ws, n=4, binary=False):
     import os
     from . import real
     rng = ctx.rng
-    for _ in range(n):
+    for it in range(n):
         k = rng.randint(3, 9)
         base_a, base_b = rng.sample([0x401000, 0x501000, 0x601000, 0x701000, 0x40a000], 2)
+        if binary and it % 2 == 1:
+            # a big object whose two versions differ ONLY far behind its first 64 KiB (a 70000-byte data section comes first, headers and
+            # section table are identical): the code is patched in place, one instruction moves
+            from . import elf
+            blob = bytes(rng.randrange(256) for _ in range(64)) * 1100
+            code_a, code_b = bytes([0x90] * k + [0xC3, 0x90]), bytes([0x90] * (k - 1) + [0xC3, 0x90, 0x90])
+            A = elf.build([elf.Section(".data", blob, 0x600000, False), elf.Section(".text", code_a, base_a)], 64, None)
+            B = elf.build([elf.Section(".data", blob, 0x600000, False), elf.Section(".text", code_b, base_a)], 64, None)
+            path = ws.write("same_stat_big.bin", A)
+            rule = ws.write("same_stat.yaml", "config:\n  mnemonics-full-match: true\npattern:\n  - nop\n  - ret\n")
+            r1 = real.match(rule, path, binary=True, ret="list", search="all", only_addr=True)
+            st = os.stat(path)
+            with open(path, "wb") as f:
+                f.write(B)
+            os.utime(path, ns=(st.st_atime_ns, st.st_mtime_ns))
+            r2 = real.match(rule, path, binary=True, ret="list", search="all", only_addr=True)
+            ctx.ran(2)
+            ctx.event("same_stat_rewrites_judged")
+            ctx.event("same_stat_rewrites_behind_the_first_64k")
+            want1, want2 = [format(base_a + k - 1, "x")], [format(base_a + k - 2, "x")]
+            if len(A) != len(B) or r1[0] != "ok" or r2[0] != "ok" or list(r1[1]) != want1 or list(r2[1]) != want2:
+                ctx.disagreement({"same_stat": True, "binary": True, "k": k, "bases": [base_a, base_a], "big": True},
+                                 f"a {len(A)}-byte object patched in place behind its first 64 KiB (same length, same mtime): first content reports {str(r1[1:2])[:60]} "
+                                 f"(expected {want1}), second content reports {str(r2[1:2])[:60]} (expected {want2})")
+            continue
 
         def text(base):
             rows = []
